@@ -27,6 +27,7 @@ from __future__ import annotations
 import copy
 import math
 import threading
+import time
 
 import core
 from props import c12_pty as P
@@ -614,16 +615,18 @@ def shard_size(n, lo, hi):
 
 
 def eval_x(cases, tag="c12x"):
-    res = core.run_impl_parallel("impl_c12.py", [{"op": "xparse", "spec": c["spec"]} for c in cases])
+    res = core.run_impl_parallel("impl_c12.py", [{"op": "xparse", "spec": c["spec"]} for c in cases],
+                                 chunk=max(400, (len(cases) + core.NCPU - 1) // core.NCPU))
     bits, errors = coq_bits(tag, [xcase_term(c, r) for c, r in zip(cases, res)], "xcase", "report_x cases",
-                            shard_size(len(cases), 50, 400))
+                            shard_size(len(cases), 100, 400))
     return bits, errors, res
 
 
 def eval_fast(cases, tag="c12f"):
-    res = core.run_impl_parallel("impl_c12.py", [impl_fast(c) for c in cases])
+    res = core.run_impl_parallel("impl_c12.py", [impl_fast(c) for c in cases],
+                                 chunk=max(150, (len(cases) + core.NCPU - 1) // core.NCPU))
     bits, errors = coq_bits(tag, [fcase_term(c, r) for c, r in zip(cases, res)], "fcase", "report_fast cases",
-                            shard_size(len(cases), 20, 150))
+                            shard_size(len(cases), 70, 150))
     return bits, errors, res
 
 
@@ -799,9 +802,18 @@ def run(ctx):
         failures.append({"signature": sig_of(small), "what": what_of(small, v2, rec2),
                          "replay": {"case": small, "observed": rec2, "bits": v2}})
 
+    phase, t_ph = {}, time.time()
+    # the two pty-less layers are evaluated side by side (the real-time layer runs alone)
+    from concurrent.futures import ThreadPoolExecutor
+    with ThreadPoolExecutor(max_workers=2) as ex:
+        fut_x = ex.submit(eval_x, xs) if xs else None
+        fut_f = ex.submit(eval_fast, fs) if fs else None
+        out_x = fut_x.result() if fut_x else None
+        out_f = fut_f.result() if fut_f else None
+    phase["x+fast"] = round(time.time() - t_ph, 1)
     # ---- x_parse_color
     if xs:
-        bits, err, res = eval_x(xs)
+        bits, err, res = out_x
         errors += err
         for c, v, r in zip(xs, bits, res):
             if v >= 16:
@@ -820,7 +832,7 @@ def run(ctx):
                 mismatches.append({"case": describe(c), "bits": v, "observed": r})
     # ---- fast
     if fs:
-        bits, err, res = eval_fast(fs)
+        bits, err, res = out_f
         errors += err
         for c, v, r in zip(fs, bits, res):
             bump(hist["op"], "fast:" + c["op"])
@@ -845,7 +857,9 @@ def run(ctx):
         hist["identity"] = dict(sorted(ids.items(), key=lambda kv: -kv[1])[:25], **{"(distinct)": len(ids)})
     # ---- pty
     if ps:
+        t_ph = time.time()
         bits, err, recs = eval_pty(ps, T_QUICK)
+        phase["pty"] = round(time.time() - t_ph, 1)
         errors += err
         conclusive = 0
         for c, v, rec in zip(ps, bits, recs):
@@ -902,6 +916,7 @@ def run(ctx):
                                    "observed": {k: crec.get(k) for k in ("result", "rounds", "leftover", "elapsed", "timeout")}})
         if conclusive == 0:
             errors.append("no pty case could be played within the timing margins")
+    extra["phase_seconds"] = phase
     samples = [describe(c) for c in (xs[n_corpus[0]:n_corpus[0] + 1] + fs[n_corpus[1]:n_corpus[1] + 2]
                                      + ps[:1] + ps[-2:])]
     return {
